@@ -5,6 +5,7 @@ CONSTANTS
   MaxV = 300
   Tset = 1
   WithIntr = TRUE
+  IntrWin = 300
 INIT VInit
 NEXT VNextA
 INVARIANTS Refines NoRunWithErrors VTypeOK VVarsTyped Linked FramesAtLineStart SliceInvariant
